@@ -44,15 +44,17 @@ func (r *Rand) Fork() *Rand { return NewRand(r.U64()) }
 
 // Case is one line of the harness output.
 type Case struct {
-	ID     string `json:"id"`
-	Kind   string `json:"k"`              // correspondence name, e.g. K/C13/prefix
-	Line   string `json:"line,omitempty"` // protocol line for the model driver ("" = oracle only)
-	Impl   string `json:"impl"`           // observable of the implementation
-	Class  string `json:"cls"`            // input class (distribution report)
-	NonTri bool   `json:"nt"`             // non-trivial by the property's rule
-	Oracle string `json:"oracle,omitempty"` // "" = end-to-end oracle held; else what failed
-	Sig    string `json:"sig,omitempty"`  // classifier signature proposed by the harness for a failure
-	Desc   string `json:"desc,omitempty"` // human readable rendering
+	ID     string   `json:"id"`
+	Kind   string   `json:"k"`                // correspondence name, e.g. K/C13/prefix
+	Line   string   `json:"line,omitempty"`   // protocol line for the model driver ("" = oracle only)
+	Impl   string   `json:"impl"`             // observable of the implementation
+	Class  string   `json:"cls"`              // input class (distribution report)
+	NonTri bool     `json:"nt"`               // non-trivial by the property's rule
+	Oracle string   `json:"oracle,omitempty"` // "" = end-to-end oracle held; else what failed
+	Sig    string   `json:"sig,omitempty"`    // classifier signature proposed by the harness for a failure
+	Desc   string   `json:"desc,omitempty"`   // human readable rendering
+	In     []string `json:"in,omitempty"`     // raw inputs (for classifiers and replay)
+	Spec   bool     `json:"spec,omitempty"`   // the model side of this correspondence is the property's own specification: a disagreement is a concrete violation
 }
 
 type Out struct {
